@@ -247,3 +247,39 @@ func FrostDealerSpy(s *Session, cheater party.ID, sid []byte, mk func() protocol
 	}, sid)
 	return spy
 }
+
+// CmpDealerCheat alters the polynomial a CMP key generation / refresh party deals before anything is sent, so that
+// its commitment, shares and proofs are all consistent with the altered polynomial: kind "plus" / "minus" change the
+// degree by one, "nonzero" gives a refresh polynomial a non-zero constant term (which would move the group key).
+func CmpDealerCheat(s *Session, cheater party.ID, kind string, sid []byte, mk func() protocol.StartFunc) {
+	s.Makers[cheater] = multi(func() protocol.StartFunc {
+		inner := mk()
+		return func(sessionID []byte) (round.Session, error) {
+			r, err := inner(sessionID)
+			if err != nil {
+				return nil, err
+			}
+			f := field(r, "VSSSecret")
+			if !f.IsValid() || !f.CanSet() {
+				return nil, fmt.Errorf("no settable VSSSecret in %T", r)
+			}
+			cur := f.Interface().(*polynomial.Polynomial)
+			deg, c := int(cur.Degree()), cur.Constant()
+			switch kind {
+			case "plus":
+				deg++
+			case "minus":
+				deg--
+			case "nonzero":
+				c = one(r.Group())
+			default:
+				return nil, fmt.Errorf("unknown dealer cheat %q", kind)
+			}
+			if deg < 0 {
+				return nil, fmt.Errorf("degree would be negative")
+			}
+			f.Set(reflect.ValueOf(polynomial.NewPolynomial(r.Group(), deg, c)))
+			return r, nil
+		}
+	}, sid)
+}
